@@ -53,6 +53,83 @@ pub struct Case {
   threads_flavour: bool,
   inners: Vec<IKind>,
   acts: Vec<Act>,
+  /// the outer stream is a plain producer that keeps calling its observer
+  /// (like a `create` source) instead of a subject, which filters finished
+  /// subscribers itself
+  #[serde(default)]
+  direct_outer: bool,
+}
+
+pub enum OuterEv {
+  Next(usize),
+  Complete,
+  Error(E),
+}
+
+type SlotL = std::rc::Rc<std::cell::RefCell<Option<Box<dyn FnMut(OuterEv)>>>>;
+type SlotS = Arc<Mutex<Option<Box<dyn FnMut(OuterEv) + Send>>>>;
+
+fn forwarder<O: Observer<usize, E>>(o: O) -> impl FnMut(OuterEv) {
+  let mut o = Some(o);
+  move |ev| match ev {
+    OuterEv::Next(i) => {
+      if let Some(x) = o.as_mut() {
+        x.next(i)
+      }
+    }
+    OuterEv::Complete => {
+      if let Some(x) = o.take() {
+        x.complete()
+      }
+    }
+    OuterEv::Error(e) => {
+      if let Some(x) = o.take() {
+        x.error(e)
+      }
+    }
+  }
+}
+
+#[derive(Clone)]
+struct DirectL(SlotL);
+impl<O: Observer<usize, E> + 'static> Observable<usize, E, O> for DirectL {
+  type Unsub = ();
+  fn actual_subscribe(self, o: O) {
+    *self.0.borrow_mut() = Some(Box::new(forwarder(o)));
+  }
+}
+impl ObservableExt<usize, E> for DirectL {}
+
+#[derive(Clone)]
+struct DirectS(SlotS);
+impl<O: Observer<usize, E> + Send + 'static> Observable<usize, E, O> for DirectS {
+  type Unsub = ();
+  fn actual_subscribe(self, o: O) {
+    *self.0.lock().unwrap() = Some(Box::new(forwarder(o)));
+  }
+}
+impl ObservableExt<usize, E> for DirectS {}
+
+fn send_l(slot: &SlotL, ev: OuterEv) {
+  // the producer is not re-entered by the harness: take the closure out while it runs
+  let f = slot.borrow_mut().take();
+  if let Some(mut f) = f {
+    f(ev);
+    let mut s = slot.borrow_mut();
+    if s.is_none() {
+      *s = Some(f);
+    }
+  }
+}
+fn send_s(slot: &SlotS, ev: OuterEv) {
+  let f = slot.lock().unwrap().take();
+  if let Some(mut f) = f {
+    f(ev);
+    let mut s = slot.lock().unwrap();
+    if s.is_none() {
+      *s = Some(f);
+    }
+  }
 }
 
 #[derive(Default)]
@@ -195,7 +272,7 @@ impl Scenario for C05 {
         _ => Act::AdvanceNext,
       });
     }
-    serde_json::to_value(Case { op, threads_flavour: rng.chance(1, 2), inners, acts }).unwrap()
+    serde_json::to_value(Case { op, threads_flavour: rng.chance(1, 2), inners, acts, direct_outer: rng.chance(1, 3) }).unwrap()
   }
 
   fn run(&self, case: &Value) -> Result<Outcome, String> {
@@ -238,6 +315,9 @@ impl Scenario for C05 {
     let hots_s: Vec<SubjectThreads<Val, E>> = (0..k).map(|_| SubjectThreads::default()).collect();
     let mut outer_l = Subject::<'static, usize, E>::default();
     let mut outer_s = SubjectThreads::<usize, E>::default();
+    let slot_l: SlotL = Default::default();
+    let slot_s: SlotS = Default::default();
+    let direct = case.direct_outer;
 
     let build = catch_unwind(AssertUnwindSafe(|| -> Box<dyn std::any::Any> {
       if !case.threads_flavour {
@@ -245,7 +325,7 @@ impl Scenario for C05 {
           .map(|i| InnerL { id: i, kind: case.inners[i].clone(), hot: hots_l[i].clone(), st: stats[i].clone(), g: gauge.clone() })
           .collect();
         let f = move |i: usize| inners[i % inners.len()].clone();
-        let o = outer_l.clone();
+        let o: rxrust::ops::box_it::BoxOp<'static, usize, E> = if direct { DirectL(slot_l.clone()).box_it() } else { outer_l.clone().box_it() };
         let p = Probe(log.clone());
         match case.op {
           FOp::MergeAll(n) => Box::new(o.map(f).merge_all(n).actual_subscribe(p)),
@@ -259,7 +339,7 @@ impl Scenario for C05 {
           .map(|i| InnerS { id: i, kind: case.inners[i].clone(), hot: hots_s[i].clone(), st: stats[i].clone(), g: gauge.clone() })
           .collect();
         let f = move |i: usize| inners[i % inners.len()].clone();
-        let o = outer_s.clone();
+        let o: rxrust::ops::box_it::BoxOpThreads<usize, E> = if direct { DirectS(slot_s.clone()).box_it() } else { outer_s.clone().box_it() };
         let p = Probe(log.clone());
         match case.op {
           FOp::MergeAll(n) => Box::new(o.map(f).merge_all_threads(n).actual_subscribe(p)),
@@ -297,10 +377,11 @@ impl Scenario for C05 {
       let r = catch_unwind(AssertUnwindSafe(|| match a {
         Act::Outer => {
           if emitted < k {
-            if case.threads_flavour {
-              outer_s.next(emitted)
-            } else {
-              outer_l.next(emitted)
+            match (direct, case.threads_flavour) {
+              (true, true) => send_s(&slot_s, OuterEv::Next(emitted)),
+              (true, false) => send_l(&slot_l, OuterEv::Next(emitted)),
+              (false, true) => outer_s.next(emitted),
+              (false, false) => outer_l.next(emitted),
             }
             true
           } else {
@@ -308,18 +389,20 @@ impl Scenario for C05 {
           }
         }
         Act::OuterComplete => {
-          if case.threads_flavour {
-            outer_s.clone().complete()
-          } else {
-            outer_l.clone().complete()
+          match (direct, case.threads_flavour) {
+            (true, true) => send_s(&slot_s, OuterEv::Complete),
+            (true, false) => send_l(&slot_l, OuterEv::Complete),
+            (false, true) => outer_s.clone().complete(),
+            (false, false) => outer_l.clone().complete(),
           }
           true
         }
         Act::OuterError => {
-          if case.threads_flavour {
-            outer_s.clone().error(8)
-          } else {
-            outer_l.clone().error(8)
+          match (direct, case.threads_flavour) {
+            (true, true) => send_s(&slot_s, OuterEv::Error(8)),
+            (true, false) => send_l(&slot_l, OuterEv::Error(8)),
+            (false, true) => outer_s.clone().error(8),
+            (false, false) => outer_l.clone().error(8),
           }
           true
         }
